@@ -59,6 +59,7 @@ def generate(rng, tier, n):
         c = rng.random()
         forced_threads = None
         long_budgets = None
+        forced_preset = None
         if len(cases) < 2:
             # the same player moves twice at the top, solved with several threads (frontier through two own decisions)
             from ..solvers import double_move_tree
@@ -68,11 +69,12 @@ def generate(rng, tier, n):
             # an infoset with more actions than any fixed-size scratch buffer
             from ..solvers import needle_tree
             t, st = needle_tree(rng, rng.choice([34, 40, 70]), pl=rng.choice([1, 2]))
-        elif len(cases) == 3:
-            # a budget beyond 2^16 iterations on a game with a properly mixed equilibrium
+        elif len(cases) in (3, 4):
+            # budgets just beyond 2^16 iterations on a game with a properly mixed equilibrium
             from ..solvers import biased_rps_tree
             t, st = biased_rps_tree(rng)
-            long_budgets = [65537 + rng.randrange(0, 12), 70000]
+            long_budgets = [65537, 65538 + rng.randrange(0, 9)]
+            forced_preset = ["vanilla", "lcfr"][len(cases) - 3]
         elif c < 0.12:
             t, st = blind_guess_tree(rng)
         elif c < 0.25:
@@ -94,6 +96,8 @@ def generate(rng, tier, n):
         if len(multi[1]) + len(multi[2]) < 2:
             continue
         preset = rng.choice(PRESETS)
+        if forced_preset:
+            preset = forced_preset
         threads = rng.choice([1, 4])
         if forced_threads:
             threads = forced_threads
